@@ -218,3 +218,9 @@ Definition check_pipeline (c : dict cell * Z * list (Z * list Z) * list cell_sig
   | Ok l => list_eqb sig_eqb l expected
   | Err _ => false
   end.
+
+(* ---- the COMPOSITION block, byte for byte ---- *)
+Definition check_write_comp
+  (c : list mcard * dict cell * list (string * list (string * string)) * res string) : bool :=
+  let '(mcs, cells, pw, expected) := c in
+  res_eqb String.eqb (write_compositions mcs cells pw) expected.
